@@ -10,7 +10,7 @@ namespace Octo.Trojan
 def crlf : Bytes := [13, 10]
 
 /-- 56 lower-case hex characters of SHA-224(password) -/
-def keyHex (C : Crypto) (password : Bytes) : Bytes := (hex (C.sha224 password)).toUTF8.toList
+def keyHex (C : Crypto) (password : Bytes) : Bytes := hexBytes (C.sha224 password)
 
 /-- request header: key, CRLF, command, address, CRLF -/
 def header (C : Crypto) (password : Bytes) (cmd : Nat) (addr : Addr) : Bytes :=
